@@ -47,8 +47,8 @@ def seq_mc(work, consts, invariants, timeout=3000, name="mcseq"):
 def seq_gen(work, consts, seed, limit, depth=12, num=None, name="genseq"):
     c = dict(consts, GenHist=True)
     r = tlc(work, "KBSeq.tla", seq_cfg(c, ["Dump"], view=False), workers=1, timeout=1800,
-            extra=["-simulate", "num=%d" % (num or max(50, limit // 8)), "-depth", str(depth), "-seed", str(seed)], name=name)
-    behs = parse_behaviours(r["outfile"], limit=limit)
+            extra=["-simulate", "num=%d" % (num or limit * 2), "-depth", str(depth), "-seed", str(seed)], name=name)
+    behs = parse_behaviours(r["outfile"], limit=limit, seed=seed)
     if not behs:
         raise Undecided("no sequential histories generated\n" + r["tail"][-2000:])
     return behs
